@@ -26,9 +26,10 @@ class Gen:
         self.me = me
         self.peers = peers
         self.corpus = []
+        self.past = []  # nicknames this victim held before (they have a WHOWAS history)
 
     def names(self):
-        return [self.me] + self.peers + ["nobody", "root"]
+        return [self.me] + self.peers + ["nobody", "root"] + self.past[-3:]
 
     def param(self, verb, pos):
         r = self.r
@@ -64,7 +65,7 @@ class Gen:
         if verb == "OPER" and k < 0.6:
             return r.choice(["root", "rootpw", "adm", "admpw", nick])
         if verb == "WHOWAS" and pos == 1 and k < 0.6:
-            return r.choice(["0", "1", "-1", "99999999999999999999", "x"])
+            return r.choice(["0", "1", "2", "5", "-1", "99999999999999999999", "18446744073709551615", "x"])
         if verb == "SQUIT" and pos == 0 and k < 0.5:
             return "irc.verif.test"
         return r.choice(pool_generic)
@@ -284,6 +285,7 @@ class Session:
                 # the protocol ended the session: come back as a new connection and go on
                 self.reconnects += 1
                 a.close()
+                gen.past.append(self.me)
                 self.me = "vic%dr%d" % (self.idx, self.reconnects)
                 gen.me = self.me
                 a = self.c(self.me)
